@@ -124,10 +124,19 @@ def random_history(rnd, alphabet, weights, maxlen):
 def gen_cases(tier, seed, alphabet):
     rnd = vlib.rng_for(seed, "C11")
     cases = []
-    # the witnesses of the Coq refutations and the drain variant; a default-constructed environment
+    # the witnesses of the two findings repaired by 7850d1f (C11:crlf-column, C11:crlf-history) and the drain
+    # variant; a default-constructed environment
     cases += ["fresh 8 8 610d0a62 0 1 2 3 4", "pos 8 8 t:610d0a62 q:4", "pos 8 8 t:610d0a62 q:2 q:4", "pos 8 8 t:610d d t:0a62 q:2",
               "pos 8 8 t:610d r t:0a62 q:2", "pos 8 8 f:0 t:610d r t:0a62 q:4", "pos - - t:6109620a0962 q:0 q:2 q:3 q:4 q:6",
               "pos - - t:0909 q:2 q:1 d t:09 q:1"]
+    # corner cases of the repaired code: drains/resets of an empty segment between a CR and its LF (origin_follows_cr_
+    # must survive them), a CR at the end of one parse and the LF at the start of the next with should_reset_on_parse
+    # toggled, a CR LF pair split twice, the example of Props/Properties_C11.v (C11_example)
+    cases += ["pos 8 8 t:610d d d t:0a62 q:0 q:1 q:2", "pos 8 8 d t:0a62 q:1 q:2", "pos 8 8 t:610d d t:- d t:0a62 q:1 q:2",
+              "pos 8 8 t:610d r r t:0a62 q:1 q:2", "pos 8 8 f:0 t:610d r t:0a62 q:2 q:3 q:4",
+              "pos 8 8 t:610d f:0 r t:0a62 q:2 q:3 q:4 f:1 r t:0a q:0 q:1", "pos 8 8 t:610d d t:62 d t:0a q:1",
+              "pos 8 8 t:0d d t:0a d t:0a q:1", "pos 8 8 t:0d q:1 d q:0 t:0a q:1 q:0", "pos 8 8 t:0d0a0d0a q:1 q:3 q:2 q:4",
+              "pos 8 8 t:0d0a0d0a q:4 q:3 q:2 q:1", "pos 8 8 t:610d q:2 d t:0a620d0a63 q:4 q:3 q:5 q:1"]
     exh = 4 if tier == "quick" else 6
     for n in range(0, exh + 1):
         for t in itertools.product(alphabet, repeat=n):
@@ -160,6 +169,41 @@ def gen_cases(tier, seed, alphabet):
     for i in range(nrand):
         w = (w_mixed, w_nocr, w_crlf)[i % 3]
         cases.append(random_history(rnd, alphabet, w, 40 if i % 5 else 12))
+    return cases
+
+
+ILLFORMED_BYTES = [0x61, 0x0d, 0x0a, 0x09, 0xc2, 0x85, 0xe2, 0x80, 0xa8, 0xf0, 0x9f, 0xff]
+
+
+def gen_byte_cases(tier, seed):
+    """correspondence only (model vs implementation): histories over arbitrary BYTES (ill-formed UTF-8 around CR
+    and LF included) with queries at arbitrary offsets (character boundaries or not); the property says nothing
+    about them, but the look-behind byte and the cache must behave alike in the model and in the library"""
+    rnd = vlib.rng_for(seed, "C11-bytes")
+    cases = ["pos 8 8 t:c20d0a61 q:1 q:2 q:3 q:4", "pos 8 8 t:c20d q:2 d t:0a61 q:1 q:2", "pos 8 8 t:e2800d0a61 q:2 q:3 q:4 q:5",
+             "pos 8 8 t:0dc2 q:1 q:2 d t:0a q:1", "pos 8 8 t:610dc2 d t:0a62 q:1 q:2", "pos 8 8 t:e2 q:1 t:80 q:2 t:a8 q:3 t:0a q:4",
+             "pos 8 8 t:e280a80a q:1 q:4", "pos 8 8 t:0de2 q:2 t:80a8 q:4", "pos 8 8 t:0de280a8 q:1 q:2 q:3 q:4"]
+    for _ in range(4000 if tier == "quick" else 40000):
+        ops, seglen, flag = [], 0, True
+        for _ in range(rnd.randint(1, 4)):
+            bs = bytes(rnd.choices(ILLFORMED_BYTES, weights=[4, 4, 4, 1, 1, 1, 1, 1, 1, 1, 1, 1], k=rnd.randint(0, 6)))
+            ops.append("t:" + hexs(bs))
+            seglen += len(bs)
+            for _ in range(rnd.randint(0, 3)):
+                ops.append("q:%d" % rnd.randint(0, seglen))
+            r = rnd.random()
+            if r < 0.05:
+                flag = rnd.random() < 0.5
+                ops.append("f:%d" % flag)
+            if r < 0.3:
+                ops.append("d")
+                seglen = 0
+            elif r < 0.5:
+                ops.append("r")
+                if flag:
+                    seglen = 0
+        ops.append("q:%d" % rnd.randint(0, seglen))
+        cases.append("pos %d %d %s" % (rnd.choice(TABW), rnd.choice(TABA), " ".join(ops)))
     return cases
 
 
@@ -203,8 +247,9 @@ def parse_history(case, defaults=(8, 8)):
 
 def py_position(cps, tw, ta, widths, split=None, lf_is_column=False):
     """Independent oracle written from the property text (split=None, lf_is_column=False).  With
-    lf_is_column=True it describes the two known defects instead: the LF of a CR LF pair occupies a column
-    of the new line, except for the pairs in `split` (index of the CR) which count as two line endings."""
+    lf_is_column=True it describes the two defects repaired by 7850d1f instead (kept to recognise them should
+    they return): the LF of a CR LF pair occupies a column of the new line, except for the pairs in `split`
+    (index of the CR) which count as two line endings."""
     line, col = 1, 1
     for k, r in enumerate(cps):
         if r in LINE_ENDINGS:
@@ -298,16 +343,20 @@ def run(chk):
             pass
     cases = gen_cases(chk.tier, chk.seed, alphabet)
     defaults = header_defaults()
-    all_cases = wq + cases
+    byte_cases = gen_byte_cases(chk.tier, chk.seed)
+    all_cases = wq + cases + byte_cases
     out_impl, err_impl = run_sharded(impl, cases)
     out_model, err_model = run_sharded(model, cases)
+    outb_impl, errb_impl = run_sharded(impl, byte_cases)
+    outb_model, errb_model = run_sharded(model, byte_cases)
+    err_impl, err_model = err_impl + errb_impl, err_model + errb_model
     out_spec, err_spec = run_sharded(model, [spec_line(c) for c in cases])
     for e in err_impl:
         chk.report("C11:other:implementation-crash", "the implementation driver crashed", e)
     if err_model or err_spec:
         chk.broken.append(dict(kind="model-driver", detail=(err_model + err_spec)[:3]))
     # correspondence: model vs implementation, line by line
-    mism = vlib.compare_lines(all_cases, "\n".join(w_impl + out_impl) + "\n", "\n".join(w_model + out_model) + "\n")
+    mism = vlib.compare_lines(all_cases, "\n".join(w_impl + out_impl + outb_impl) + "\n", "\n".join(w_model + out_model + outb_model) + "\n")
     if mism:
         chk.broken.append(dict(kind="correspondence", stream="environment positions", count=len(mism),
                                first=[dict(case=m[1], implementation=m[2], model=m[3]) for m in mism[:5]]))
@@ -358,9 +407,10 @@ def run(chk):
              "(1) every text of length <= %d, one query per character boundary, each in a fresh environment; (2) every short text with a tab under "
              "all 12 tab settings {1,2,4,8}x{1,3,8}; (3) all ordered pairs of queries on every text of length <= %d and on sampled longer texts; "
              "(4) random histories: text of up to 40 characters split over 1-4 appends, queries at random boundaries in random order, drains, "
-             "resets, should_reset_on_parse toggles, random tab settings (one third of them without CR, one third dense in CR/LF). "
+             "resets, should_reset_on_parse toggles, random tab settings (one third of them without CR, one third dense in CR/LF); "
+             "(5) correspondence only: %d histories over arbitrary bytes (ill-formed UTF-8 around CR/LF) with queries at arbitrary offsets. "
              "Non-trivial = the text has a line ending, tab or non-ASCII character and at least one query; distinct = distinct command lines."
-             % (alpha_info["wide"], alpha_info["zero"], exh, 2 if chk.tier == "quick" else 3),
+             % (alpha_info["wide"], alpha_info["zero"], exh, 2 if chk.tier == "quick" else 3, len(byte_cases)),
         correspondence_cases=len(all_cases), correspondence_mismatches=len(mism), queries_checked_against_spec=nq, spec_disagreements=nbad,
         disagreements_by_signature=by_sig, oracle_cross_checks=noracle, alphabet=[hex(c) for c in alphabet], widths_per_library=alpha_info["widths"],
         exhaustive=False, translator=tr)
@@ -373,10 +423,12 @@ def run(chk):
         "(its table is the subject of C14, not of C11)",
         "the cpp driver calls the private members set_match_and_subject/drain/reset directly (-fno-access-control) instead of going through a parser",
         "extraction (ExtrOcamlBasic) and OCaml 4.13.1; g++ 12.2"]
-    return chk.finish(proof, "Theorems of Props/Properties_C11.v re-checked (cache sorted, repeated query, history independence for texts "
-                             "without CR LF pairs, the two CR LF defects refuted by evaluation); model vs implementation compared on %d "
-                             "histories; specification vs implementation on %d query answers (%d disagreements, all explained by the known "
-                             "findings unless a VIOLATION is printed)" % (len(all_cases), nq, nbad))
+    return chk.finish(proof, "Theorems of Props/Properties_C11.v re-checked (cache sorted, repeated query, history independence for every "
+                             "text, CR LF pairs included, every tab setting and every history of appends, queries, drains, resets and toggles; "
+                             "single query and query order as special cases; a worked example); model vs implementation compared on %d "
+                             "histories; specification vs implementation on %d query answers (%d disagreements; each one is a VIOLATION: "
+                             "the two CR LF findings are fixed by 7850d1f and would be reported under their old signatures if they returned)"
+                             % (len(all_cases), nq, nbad))
 
 
 def replay(path):
